@@ -81,6 +81,15 @@ let () =
     match list s with
     | [t; c; e; i] -> of_sx (M.c02_judge (file_ t) (file_ c) (file_ e) (file_ i))
     | _ -> failwith "c02-judge: bad case");
+  (* ((round ...) zod), round = (((rank (item ...)) ...) ((k v) ...)) *)
+  Registry.register "reuse" (fun s ->
+    match list s with
+    | [rounds; zod] ->
+        let round_ r = match list r with
+          | [files; maps] -> { M.ri_files = list_ (pair_ nat_ (list_ item_)) files; ri_maps = list_ (pair_ str_ str_) maps }
+          | _ -> failwith "c02-reuse: bad round" in
+        of_sx (M.c02_reuse (list_ round_ rounds) (bool_ zod))
+    | _ -> failwith "c02-reuse: bad case");
   (* (rust-type-string real-filter-output) *)
   Registry.register "atp" (fun s ->
     match list s with
